@@ -66,6 +66,9 @@ class StepBudget:
 PID = 0x7F
 
 
+FEATURES = {}
+
+
 def build_graph_table(rng, length, shape, cyclic, nconfigs, extra_values):
     """One package; type 1 'string' holds the chain nodes, type 2 'array' the bag (shape 'complex').
     nodes n0 -> n1 -> ... -> n(length-1) [-> n0 if cyclic else a concrete value].  For shape 'complex' n0 is a bag whose item holds the reference.
@@ -73,6 +76,10 @@ def build_graph_table(rng, length, shape, cyclic, nconfigs, extra_values):
     extra_values: some nodes get one more configuration holding a concrete string (must be found)."""
     m = c28.Model()
     cfgs = [R.Config()] + [R.Config(*loc) for loc in [("de", ""), ("fr", "FR"), ("en", "")]][:nconfigs - 1]
+    if rng.random() < 0.3:
+        # no node has a default (locale-less) variant: everything lives in values-de / values-fr-rFR / values-en only
+        cfgs = [R.Config(*loc) for loc in [("de", ""), ("fr", "FR"), ("en", "")]][:max(1, nconfigs)]
+        FEATURES["locale_only_tables"] = FEATURES.get("locale_only_tables", 0) + 1
     extra_cfg = R.Config("ja", "")
     str_entries = {}  # cfgkey -> {idx: Entry}
     arr_entries = {}
@@ -318,6 +325,8 @@ def run(ctx):
     for length in range(1, 6):
         apk_case(ctx, rng, length)
     ctx.sample({"calibration": ctx.extra["calibration"]})
+    ctx.count("tables_without_any_default_locale_variant", FEATURES.get("locale_only_tables", 0))
+    ctx.require_counter("tables_without_any_default_locale_variant", 20)
     ctx.require_counter("resolver_runs_cycle", 100)
     ctx.require_counter("resolver_runs_chain", 100)
     ctx.require_counter("apk_queries", 10)
